@@ -24,6 +24,7 @@ type c08Spec struct {
 	Repl     []string `json:"replica_conditions"` // per other HA host: streaming stopped wrong_source not_semisync refusing timing_out
 	RO       string   `json:"read_only_attempt"`  // ok lock_wait deadline other_error
 	HealS    int      `json:"timeouts_heal_after_s"`
+	Turn     string   `json:"timing_out_replicas_then"` // healthy refusing stopped: what they are once they answer again
 }
 
 var c08Conds = []string{"streaming", "stopped", "wrong_source", "not_semisync", "refusing", "timing_out"}
@@ -60,6 +61,7 @@ func c08Gen(seed int64, idx int) c08Spec {
 		}
 	}
 	sp.HealS = []int{0, 8, 0, 45}[r.Intn(4)]
+	sp.Turn = []string{"healthy", "refusing", "stopped"}[r.Intn(3)]
 	return sp
 }
 
@@ -395,7 +397,17 @@ func c08Run(u *Unit) {
 			go func() {
 				time.Sleep(time.Duration(sp.HealS) * time.Second)
 				for _, h := range timing {
+					// the condition observed earlier in the episode (unreachable) is replaced by another one
+					switch sp.Turn {
+					case "refusing":
+						s.W.Crash(h)
+					case "stopped":
+						s.W.Manual(h, "replication stopped", func(x *world.Server) { x.IORun, x.SQLRun = false, false })
+					}
 					s.W.Cut(local, h, false)
+				}
+				if len(timing) > 0 {
+					sc.Cover("condition-changed-within-the-delay:" + sp.Turn)
 				}
 			}()
 		}
@@ -413,7 +425,7 @@ func c08Run(u *Unit) {
 		}
 		sc.Stat("lost_iterations", iters)
 		if iters > 0 {
-			sc.Coverf("role=%s|n=%d|semi=%v|w=%d|nofence=%v|repl=%v|ro=%s|heal=%d", sp.Role, sp.N, sp.SemiSync, sp.W, sp.NoFence, sp.Repl, sp.RO, sp.HealS)
+			sc.Coverf("role=%s|n=%d|semi=%v|w=%d|nofence=%v|repl=%v|ro=%s|heal=%d|turn=%s", sp.Role, sp.N, sp.SemiSync, sp.W, sp.NoFence, sp.Repl, sp.RO, sp.HealS, sp.Turn)
 		}
 		s.W.Lock()
 		loc := s.W.Servers[local]
